@@ -474,6 +474,27 @@ def r3_in_order_flush(ctx, rep, R='C06.R3'):
                   'layer order' % (norm(getattr(touched, '_parent', touched)) if touched is not None else ''),
                   key='flush:layer-order', func=fi.qualname,
                   where=ctx.where(fi, touched if touched is not None else fi.node))
+    # "there is a current result" is tested by truth (``while current_result and current_result.done``):
+    # the result objects must be truthy whatever they hold -- a __len__ / __bool__ on the result
+    # classes makes a result without output lines look like "no result", and the display stalls
+    m_ = ctx.model
+    res_classes = [c for c in m_.all_classes() if c.module.name == 'runner' and c.name.endswith('SubprocessResult')]
+    truth_tested = any(
+        (isinstance(x, (ast.While, ast.If)) and (
+            is_name(x.test, cur) or (isinstance(x.test, ast.BoolOp) and any(is_name(v, cur) for v in x.test.values))))
+        for x in ast.walk(fi.node))
+    falsy = []
+    if truth_tested:
+        for c in res_classes:
+            for k in m_.mro(c):
+                for nm in ('__len__', '__bool__'):
+                    if nm in k.methods:
+                        falsy.append('%s.%s' % (k.name, nm))
+    rep.check(not falsy, R, 'the result objects tested for truth in the flush loop are always truthy',
+              'resume_tests tests "%s" for truth to mean "there is a result", but %s makes a result that '
+              'has collected no output falsy: the ordered display stops at a layer whose child printed '
+              'nothing (crashed at start-up) and the blocks of all later layers are never shown' % (
+                  cur, sorted(set(falsy))), key='flush:truthy', func=fi.qualname, where=ctx.where(fi, w))
     rep.check(okc, R, 'cursor = next(iter(results)); results appended in the order of the layers',
               'the flush cursor does not walk the results in layer order', key='flush:cursor',
               func=fi.qualname, where=ctx.where(fi, w))
